@@ -212,6 +212,7 @@ class Real(Part):
             res = convo.run_a(self.gw, f"r{ctx.shard}-{next(_pid)}", program, inproc.CONVO_SRC)
         try:
             if wd.fired:
+                ctx.count("hangs")
                 raise Violation("real.hang", "program did not finish within 150 s (normal: < 2 s)")
             TP.check_actor_health(res, "real")
             if res["report"] != "ok":
